@@ -139,6 +139,14 @@ type c6Z struct {
 	Any []any     `wire:",required=false"`
 }
 
+// c6NS collects providers whose pointee is a named non-struct type.
+type c6NS struct {
+	Num *scen.TNum  `wire:",required=false"`
+	Map *scen.TMapT `wire:",required=false"`
+	All []scen.I1   `wire:",required=false"`
+	One scen.I1     `wire:",required=false"`
+}
+
 // c6Sealed collects implementers of a sealed interface.
 type c6Sealed struct {
 	All []scen.IS `wire:",required=false"`
@@ -190,6 +198,7 @@ type c06Case struct {
 	Embedded  bool        `json:"points_in_unexported_embedded_struct,omitempty"`
 	Preset    bool        `json:"fields_preset,omitempty"`  // the all-optional consumer is registered with every field already holding unregistered objects
 	Zero      int         `json:"zero_size_mask,omitempty"` // family "zero-size": which of Z1,Z2,Z3 are registered
+	NonStruct int         `json:"non_struct_mask,omitempty"` // family "non-struct": which of *TNum (int64), *TMapT (map) are registered, bit 2: a *TA next to them
 	Sealed    int         `json:"sealed_mask,omitempty"`    // family "sealed": which of TS1,TS2 (implementers of a sealed interface) are registered
 }
 
@@ -269,6 +278,17 @@ func c06Gen(c *core.Ctx) func(yield func(c06Case) bool) {
 		for m := 1; m < 4; m++ {
 			if ok = yield(c06Case{Sealed: m}); !ok {
 				return
+			}
+		}
+		// providers whose pointee is a named non-struct type
+		for m := 1; m < 8; m++ {
+			if m == 4 {
+				continue
+			}
+			for _, desc := range []bool{false, true} {
+				if ok = yield(c06Case{NonStruct: m, Desc: desc}); !ok {
+					return
+				}
 			}
 		}
 		// zero-size components
@@ -416,6 +436,34 @@ func c06Run(c *core.Ctx) {
 				zh = &c6Z{}
 				comps = append(comps, zh)
 			}
+			var nsh *c6NS
+			var nsNum *scen.TNum
+			var nsMap *scen.TMapT
+			var nsWant []string
+			if cs.NonStruct != 0 {
+				if cs.NonStruct&1 != 0 {
+					v := scen.TNum(7)
+					nsNum = &v
+					comps = append(comps, nsNum)
+					nsWant = append(nsWant, "TNum#7")
+					user["verif/internal/scen/TNum"] = true
+				}
+				if cs.NonStruct&2 != 0 {
+					v := scen.TMapT{"id": 9}
+					nsMap = &v
+					comps = append(comps, nsMap)
+					nsWant = append(nsWant, "TMapT#9")
+					user["verif/internal/scen/TMapT"] = true
+				}
+				if cs.NonStruct&4 != 0 {
+					comps = append(comps, scen.BuildInst(scen.Inst{Typ: "TA", Name: "tan"}, 0))
+					nsWant = append(nsWant, "TA#0")
+					user["tan"] = true
+				}
+				sort.Strings(nsWant)
+				nsh = &c6NS{}
+				comps = append(comps, nsh)
+			}
 			var sh *c6Sealed
 			var swant []string
 			if cs.Sealed != 0 {
@@ -433,7 +481,7 @@ func c06Run(c *core.Ctx) {
 			var call *c6All
 			var holderObj any
 			var get func() any
-			if len(cs.Peers) > 0 || cs.Zero != 0 || cs.Sealed != 0 {
+			if len(cs.Peers) > 0 || cs.Zero != 0 || cs.Sealed != 0 || cs.NonStruct != 0 {
 			} else if cs.Kind == "" {
 				call = &c6All{}
 				if cs.Preset {
@@ -476,7 +524,7 @@ func c06Run(c *core.Ctx) {
 			cc := cs
 			cc.Choices = ch.Choices()
 			key := func(kind string) string {
-				return "C06/" + kind + "/" + core.Hash(cs.Pop, cs.Kind, cs.Desc, cs.Peers, cs.Zero, cs.Sealed, cs.Neutral, cs.ProcOrder, cs.Preset, cs.Embedded, cc.Choices)
+				return "C06/" + kind + "/" + core.Hash(cs.Pop, cs.Kind, cs.Desc, cs.Peers, cs.Zero, cs.Sealed, cs.Neutral, cs.ProcOrder, cs.Preset, cs.Embedded, cs.NonStruct, cc.Choices)
 			}
 			adm := func(kind string) []string {
 				pred := c6Pred(kind)
@@ -525,6 +573,25 @@ func c06Run(c *core.Ctx) {
 					return false
 				}
 				return true
+			}
+			if cs.NonStruct != 0 {
+				if o.Err != nil {
+					c.Outcome("nonstruct/error")
+					c.Report(key("nonstruct-error"), "spurious-error", "all points are optional but start-up failed: "+scen.FirstLine(o.Err), cc)
+					return
+				}
+				c.Outcome(fmt.Sprintf("nonstruct/ok/%d", len(nsWant)))
+				switch {
+				case nsh.Num != nsNum:
+					c.Report(key("nonstruct-num"), "wrong-or-missing", fmt.Sprintf("*TNum point (a component whose pointee is an int64) holds %v, registered: %v", nsh.Num, nsNum != nil), cc)
+				case nsh.Map != nsMap:
+					c.Report(key("nonstruct-map"), "wrong-or-missing", fmt.Sprintf("*TMapT point (a component whose pointee is a map) holds %v, registered: %v", nsh.Map, nsMap != nil), cc)
+				default:
+					if slice("[]I1 next to non-struct providers", scen.IdsOf(nsh.All), nsWant) {
+						single("I1 next to non-struct providers", nsh.One, nsWant)
+					}
+				}
+				return
 			}
 			if cs.Sealed != 0 {
 				if o.Err != nil {
